@@ -384,7 +384,7 @@ def parse_line(line):
 
 def cdk(d):
     if d is None:
-        return "I"
+        return "Inf"
     assert 0 <= d[1] < NS, "generator must emit normalized durations"
     return "(F %s %s)" % (cz(d[0]), cz(d[1]))
 
